@@ -258,3 +258,11 @@ func verifReadModifyWriteRollout(stored *v1beta1.Rollout, view *Rollout, written
 //@ ensures routing_ref: old(stored.Spec.Strategy.Canary.TrafficRoutingRef) != "" ==> written.Spec.Strategy.Canary.TrafficRoutingRef == old(stored.Spec.Strategy.Canary.TrafficRoutingRef)
 //@ ensures shape: len(written.Spec.Strategy.Canary.Steps) == old(len(stored.Spec.Strategy.Canary.Steps)) && len(written.Spec.Strategy.Canary.TrafficRoutings) == old(len(stored.Spec.Strategy.Canary.TrafficRoutings)) && (written.Spec.Strategy.Canary.PatchPodTemplateMetadata == nil) == (old(stored.Spec.Strategy.Canary.PatchPodTemplateMetadata) == nil)
 //@ ensures status_cursor: (written.Status.CanaryStatus == nil) == (old(stored.Status.CanaryStatus) == nil)
+
+// C17 (F24): defaulting the strategy of an Advanced Deployment fills in what the user left out and never replaces a
+// maxUnavailable the user did set (the availability budget of the rolling update is computed from it).
+//@ func SetDefaultDeploymentStrategy
+//@ props C17
+//@ requires strategy != nil
+//@ ensures user_max_unavailable_kept: old(strategy.RollingStyle == "Partition" && strategy.RollingUpdate != nil && strategy.RollingUpdate.MaxUnavailable != nil && strategy.RollingUpdate.MaxUnavailable.Type == 0 && strategy.RollingUpdate.MaxUnavailable.IntVal > 0) ==> strategy.RollingUpdate != nil && strategy.RollingUpdate.MaxUnavailable == old(strategy.RollingUpdate.MaxUnavailable)
+//@ ensures missing_surge_defaulted: old(strategy.RollingStyle == "Partition" && strategy.RollingUpdate != nil && strategy.RollingUpdate.MaxUnavailable != nil && strategy.RollingUpdate.MaxUnavailable.Type == 0 && strategy.RollingUpdate.MaxUnavailable.IntVal > 0) ==> strategy.RollingUpdate.MaxSurge != nil
